@@ -361,12 +361,89 @@ def job_static_crosscheck(jc):
     jc.sample(spec_entries=len(SPEC), zoo_types=len(present))
 
 
+# ---------------------------------------------------------------- util.load_fully: what reorder_glyphs is handed is really all in memory
+
+
+def _many_pairs_font(lazy):
+    """a font whose PairSet has more records than fontTools decodes eagerly, reopened with the given laziness"""
+    from io import BytesIO
+    from fontTools.fontBuilder import FontBuilder
+    from fontTools.feaLib.builder import addOpenTypeFeaturesFromString
+    from fontTools.pens.ttGlyphPen import TTGlyphPen
+    from fontTools.ttLib import TTFont
+
+    names = [".notdef"] + [f"g{i:02d}" for i in range(14)]
+    fb = FontBuilder(1000, isTTF=True)
+    fb.setupGlyphOrder(names)
+    fb.setupCharacterMap({0x41 + i: n for i, n in enumerate(names[1:])})
+    g = TTGlyphPen(None).glyph()
+    fb.setupGlyf({n: g for n in names})
+    fb.setupHorizontalMetrics({n: (500, 0) for n in names})
+    fb.setupHorizontalHeader()
+    fb.setupNameTable({})
+    fb.setupOS2()
+    fb.setupPost()
+    fea = "feature kern {\n" + "".join(f"  pos g00 {n} {-10 * (i + 1)};\n" for i, n in enumerate(names[2:])) + "} kern;\n"
+    addOpenTypeFeaturesFromString(fb.font, fea)
+    b = BytesIO()
+    fb.font.save(b)
+    b.seek(0)
+    return TTFont(b, lazy=lazy), names
+
+
+def _undecoded(font):
+    bad = []
+    for tag in ("GPOS", "GSUB", "GDEF"):
+        if tag not in font:
+            continue
+        for node in all_nodes(font[tag].table):
+            for k, v in vars(node).items():
+                if type(v).__name__ == "_LazyList":
+                    bad.append(f"{tag}:{type(node).__name__}.{k}")
+    return bad
+
+
+def replay_load_fully(inp):
+    lazy = {0: None, 1: True, 2: False}[int(inp["lazy"])]
+    font, names = _many_pairs_font(lazy)
+    try:
+        out = UTIL.load_fully(font)
+    except Exception as e:
+        return {"lazy": lazy, "raised": repr(e)}
+    bad = _undecoded(out)
+    order = [names[0]] + names[:0:-1]
+    try:
+        RG.reorder_glyphs(out, order)
+        err = None
+    except Exception as e:
+        err = repr(e)
+    if out.lazy is not False or bad or err:
+        return {"font opened with lazy": lazy, "load_fully(...).lazy": out.lazy, "arrays still undecoded": bad[:4], "reorder_glyphs on it": err}
+    return None
+
+
+def job_load_fully(jc):
+    jc.encode(UTIL.load_fully, UTIL._reload)
+    inp = {"lazy": core.SymNum(z3.Int("lazy"))}
+
+    def body():
+        return core.integer("lazy", 0, 2).concretize()
+
+    for r in jc.explore(body):
+        k = r.value
+        jc.reach(r, f"lazy={k}")
+        jc.prove(r, z3.BoolVal(replay_load_fully({"lazy": k}) is None), "load_fully returns a font opened with lazy=False whose arrays are all decoded, so that reordering sees every record (PairSet with 13 records)", inp, replay_load_fully, key="C11:load_fully")
+    jc.expect_reached("lazy=0", "lazy=1", "lazy=2")
+
+
+
 def jobs(tier):
     font = ZOO.build_zoo()
     js = [Job(f"focus[{name}]", job_focus, index=i) for i, (tag, name, st) in enumerate(focuses(font))]
     js.append(Job("whole_font", job_whole_font))
     js.append(Job("whole_font[empty lookup first]", job_whole_font, variant="empty lookup first"))
     js.append(Job("static_crosscheck", job_static_crosscheck))
+    js.append(Job("load_fully", job_load_fully))
     # the regrouping that triggers the reorder (svg._ensure_groups_grouped_in_glyph_order): the new glyph order and
     # the glyph ids written into the documents must be one and the same numbering
     from harness import C02
